@@ -570,6 +570,19 @@ pub fn verif_verify_dummy_leaf_template(
     verify_dummy_leaf_template(template, leaf_verifier)
 }
 
+/// Verification hook: make a committed prover committable again (`commit`
+/// consumes the targets and fills the witness). The caller supplies the
+/// targets of the same circuit (`PrivateBatchCircuit::new(..).targets()` is
+/// deterministic), so many commits can be observed over one circuit build.
+#[cfg(quantus_network_qp_zk_circuits_verif)]
+impl PrivateBatchProver {
+    pub fn verif_c15_recycle(mut self, targets: PrivateBatchCircuitTargets) -> Self {
+        self.targets = Some(targets);
+        self.partial_witness = PartialWitness::new();
+        self
+    }
+}
+
 #[cfg(test)]
 mod tests {
     use super::*;
